@@ -36,10 +36,17 @@ ASSUMPTIONS = ['glue is its own reference for the full array (view consistency i
                'sampling, not proof']
 PROBES = ['value_view', 'mask_view', 'indexed_values', 'indexed_mask', 'indexed_stat', 'indexed_hist', 'indexed_after_index_change',
           'indexed_after_parent_update', 'view_after_other_view_read', 'world_attr_view', 'categorical_view', 'linked_attr_view', 'derived_attr_view',
-          'boolmask_view', 'intarray_view', 'short_tuple_view', 'member_state_compared', 'pixel_axes_linked_permuted', 'indexed_with_selection']
+          'boolmask_view', 'intarray_view', 'short_tuple_view', 'member_state_compared', 'pixel_axes_linked_permuted', 'indexed_with_selection',
+          'reused_index_buffer', 'partial_index_arrays', 'arrays_mixed_with_slices', 'boolean_along_first_axis', 'negative_indices',
+          'indexed_negative_index']
 
 KINDS = ['ineq', 'range', 'mrange', 'roi', 'mask', 'slice', 'elem', 'catroi', 'cat', 'empty']
-VIEWKINDS = ['none', 'ellipsis', 'slices', 'short', 'mixed', 'intarrays', 'bool']
+VIEWKINDS_ALL = ['none', 'ellipsis', 'slices', 'short', 'mixed', 'intarrays', 'bool',
+             # round 7: every way numpy lets arrays take part in an index
+             'arrshort', 'arrmixed', 'boolaxis', 'negarrays', 'intlist', 'bool-reused', 'arr-reused']
+# Python lists are not generated as views: glue reads a list as a tuple in most places (world coordinates, derived attributes, mask and
+# slice selections - numpy's former convention) and as an index array in others (stored attributes); the statement speaks of array views
+VIEWKINDS = [k for k in VIEWKINDS_ALL if k != 'intlist']
 WEIGHTS = {'cmp_val': 8, 'cmp_mask': 8, 'read': 4, 'upd': 2, 'set_state': 1.5, 'new_group': 1, 'indexed_new': 2, 'indexed_set': 2,
            'cmp_indexed': 6}
 
@@ -51,15 +58,63 @@ def gen_view(rng):
     if k in ('slices', 'short'):
         return [k, [[rng.randrange(0, 3), rng.randrange(0, 5), rng.randrange(1, 3)] for _ in range(3)], rng.randrange(1, 3)]
     if k == 'mixed':
-        return [k, [[rng.pick(['i', 's']), rng.randrange(0, 6), rng.randrange(1, 5), rng.randrange(1, 3)] for _ in range(3)]]
+        # 'n': an integer counted from the end
+        return [k, [[rng.pick(['i', 's', 'i', 's', 'n']), rng.randrange(0, 6), rng.randrange(1, 5), rng.randrange(1, 3)] for _ in range(3)]]
+    if k in ('arrshort', 'negarrays'):
+        return [k, rng.randrange(10000), rng.pick([1, 2, 3, 5]), rng.randrange(1, 3)]
+    if k == 'arrmixed':
+        return [k, rng.randrange(10000), rng.pick([1, 2, 3]), [rng.pick(['a', 's', 'i']) for _ in range(3)],
+                [[rng.randrange(0, 3), rng.randrange(1, 5), rng.randrange(1, 3)] for _ in range(3)]]
+    if k == 'intlist':
+        return [k, [rng.randrange(0, 6) for _ in range(rng.randrange(1, 4))], rng.chance(0.5)]
     if k == 'intarrays':
         return [k, rng.randrange(10000), rng.pick([0, 1, 2, 3, 4, -1, -1])]     # -1: index arrays of the dataset's own shape
     return [k, rng.randrange(10000)]
 
 
-def build_view(spec, shape):
+def build_view(spec, shape, bufs=None):
     k = spec[0]
     nd = len(shape)
+    if k in ('bool-reused', 'arr-reused'):
+        # the very same array object(s) as the last time, filled anew in place (an index buffer a caller keeps)
+        rs = np.random.RandomState(spec[1])
+        key = (k, tuple(shape))
+        if k == 'bool-reused':
+            new = rs.randint(0, 2, size=shape).astype(bool)
+            if bufs is None or key not in bufs:
+                if bufs is not None:
+                    bufs[key] = new
+                return new
+            bufs[key][...] = new
+            return bufs[key]
+        new = tuple(rs.randint(0, n, size=3) for n in shape)
+        if bufs is None or key not in bufs:
+            if bufs is not None:
+                bufs[key] = new
+            return new
+        for b, x in zip(bufs[key], new):
+            b[...] = x
+        return bufs[key]
+    if k == 'arrshort':
+        rs = np.random.RandomState(spec[1])
+        n = max(1, nd - spec[3])
+        return tuple(rs.randint(0, m, size=spec[2]) for m in shape[:n])
+    if k == 'negarrays':
+        rs = np.random.RandomState(spec[1])
+        return tuple(rs.randint(-m, m, size=spec[2]) for m in shape)
+    if k == 'arrmixed':
+        rs = np.random.RandomState(spec[1])
+        kinds = list(spec[3][:nd])
+        if 'a' not in kinds:
+            kinds[0] = 'a'
+        out = []
+        for t, (a, b, c), m in zip(kinds, spec[4], shape):
+            out.append(rs.randint(0, m, size=spec[2]) if t == 'a' else a % m if t == 'i' else slice(a % m, a % m + b, c))
+        return tuple(out)
+    if k == 'boolaxis':
+        return (np.random.RandomState(spec[1]).randint(0, 2, size=shape[0]).astype(bool),)
+    if k == 'intlist':
+        return [i % shape[0] for i in spec[1]]
     if k == 'none':
         return None
     if k == 'ellipsis':
@@ -72,7 +127,7 @@ def build_view(spec, shape):
     if k == 'mixed':
         out = []
         for (t, a, b, c), n in zip(spec[1][:nd], shape):
-            out.append(a % n if t == 'i' else slice(a % n, a % n + b, c))
+            out.append(a % n if t == 'i' else a % n - n if t == 'n' else slice(a % n, a % n + b, c))
         return tuple(out)
     if k == 'intarrays':
         rs = np.random.RandomState(spec[1])
@@ -86,7 +141,7 @@ def build_view(spec, shape):
 
 def view_kind(spec, shape):
     k = spec[0]
-    if k == 'mixed' and all(t == 'i' for (t, a, b, c) in spec[1][:len(shape)]):
+    if k == 'mixed' and all(t in 'in' for (t, a, b, c) in spec[1][:len(shape)]):
         return 'allint'
     if k in ('slices', 'short', 'mixed'):
         v = build_view(spec, shape)
@@ -141,9 +196,9 @@ def generate(rng, cfg, guards):
         elif k == 'new_group':
             ops.append([k, W.gen_recipe(rng, 2, KINDS)])
         elif k == 'indexed_new':
-            ops.append([k, r8(), [rng.pick([None, None, 0, 1, 2, 3]) for _ in range(3)]])
+            ops.append([k, r8(), [rng.pick([None, None, 0, 1, 2, 3, -1, -2]) for _ in range(3)]])
         elif k == 'indexed_set':
-            ops.append([k, r8(), [rng.randrange(0, 4) for _ in range(3)]])
+            ops.append([k, r8(), [rng.pick([0, 1, 2, 3, rng.randrange(0, 4), -1, -2]) for _ in range(3)]])
             if rng.chance(0.4):
                 # the same request before and after the indices change (same dataset, attribute, selection object)
                 what = rng.pick(['hist', 'hist', 'stat', 'mask'])
@@ -286,6 +341,7 @@ def execute(case, res):
     dc = w.dc
     guards = w.guards
     indexed = []      # IndexedData objects (kept alive)
+    bufs = {}         # index buffers that are reused (filled anew in place)
     nreads = [0]
     last_view_read = {}
     nv = [0]
@@ -348,7 +404,7 @@ def execute(case, res):
             dep = dep_of(d, cid)
             if ('C04-value-%s-%s' % (dep, vk)) in guards:
                 continue
-            view = build_view(op[3], d.shape)
+            view = build_view(op[3], d.shape, bufs)
             if k == 'read':
                 try:
                     d.get_data(cid, view=view)
@@ -392,7 +448,22 @@ def execute(case, res):
             dep = state_dep(d, st)
             if ('C04-mask-%s-%s' % (dep, vk)) in guards:
                 continue
-            view = build_view(op[3], d.shape)
+            view = build_view(op[3], d.shape, bufs)
+            if vk == 'intlist' and d.ndim >= len(view) and len(view) > 1:
+                # the tuple of the same integers is another view (one element / a sub-array, not rows): ask for it first or afterwards
+                tview = tuple(i % n for i, n in zip(op[3][1], d.shape))
+                try:
+                    fm = np.broadcast_to(np.asarray(d.get_mask(st), dtype=bool), d.shape)
+                    if not op[3][2]:
+                        pre = np.asarray(d.get_mask(st, view=view))
+                    gt = np.asarray(d.get_mask(st, view=tview))
+                except (IncompatibleAttribute, IndexError, ValueError):
+                    gt = None
+                if gt is not None:
+                    res.probe('list_and_tuple_of_same_integers')
+                    if gt.shape != fm[tview].shape or not np.array_equal(gt.astype(bool), fm[tview]):
+                        raise Violation('C04/mask-view/%s/inttuple-after-intlist' % dep, '%s view %r classes %s: got %s expected %s' % (
+                            d.label, tview, classes, gt.tolist(), fm[tview].tolist()))
             try:
                 full = np.asarray(d.get_mask(st), dtype=bool)
             except IncompatibleAttribute:
@@ -413,7 +484,9 @@ def execute(case, res):
                                 % (d.label, op[3], classes, type(e).__name__, e))
             res.nchecks += 1
             res.probe('mask_view')
-            res.probe({'bool': 'boolmask_view', 'intarrays': 'intarray_view', 'short': 'short_tuple_view'}.get(vk, 'mask_view'))
+            res.probe({'bool': 'boolmask_view', 'intarrays': 'intarray_view', 'short': 'short_tuple_view', 'bool-reused': 'reused_index_buffer',
+                       'arr-reused': 'reused_index_buffer', 'arrshort': 'partial_index_arrays', 'arrmixed': 'arrays_mixed_with_slices',
+                       'boolaxis': 'boolean_along_first_axis', 'negarrays': 'negative_indices', 'intlist': 'list_of_integers'}.get(vk, 'mask_view'))
             key = (id(st), id(d))
             if key in last_view_read and last_view_read[key] != repr(op[3]):
                 res.probe('view_after_other_view_read')
@@ -430,7 +503,9 @@ def execute(case, res):
             d = w.pick_data(op[1])
             if d is None or d.ndim < 2:
                 continue
-            idx = [None if i is None else i % n for i, n in zip(op[2][:d.ndim], d.shape)]
+            idx = [None if i is None else i % n if i >= 0 else max(i, -n) for i, n in zip(op[2][:d.ndim], d.shape)]
+            if any(i is not None and i < 0 for i in idx):
+                res.probe('indexed_negative_index')
             if all(i is not None for i in idx):
                 idx[0] = None
             if all(i is None for i in idx):
@@ -445,7 +520,9 @@ def execute(case, res):
                 continue
             x = indexed[op[1] % len(indexed)]
             par = x._original_data
-            new = tuple(None if i is None else v % n for i, v, n in zip(x.indices, op[2], par.shape))
+            new = tuple(None if i is None else v % n if v >= 0 else max(v, -n) for i, v, n in zip(x.indices, op[2], par.shape))
+            if any(i is not None and i < 0 for i in new):
+                res.probe('indexed_negative_index')
             x.indices = new
             x._changed = True
         elif k == 'cmp_indexed':
